@@ -26,6 +26,9 @@ pub struct BusCase {
     /// directed cases only: Repeat operations are carried out in full (up to 70000 repetitions) instead of 300
     #[serde(default)]
     pub deep: bool,
+    /// per sign: macro operations it went through alone before the bus was built around it
+    #[serde(default)]
+    pub past: Vec<Vec<HOp>>,
 }
 
 type Obs = (State, Option<SignType>, Vec<(u32, u32, Vec<u8>)>);
@@ -63,10 +66,23 @@ pub struct BusPair {
 
 impl BusPair {
     pub fn new(signs: &[(u16, bool)]) -> Self {
+        Self::with_past(signs, &[])
+    }
+
+    /// `past[i]`: messages sign i received on its own (through VirtualSign::process_message) BEFORE it was put on
+    /// the bus - a bus may be built from signs that already have a history (configured, mid-transfer, holding pages)
+    pub fn with_past(signs: &[(u16, bool)], past: &[Vec<M>]) -> Self {
+        let make = |i: usize, a: u16, f: bool| {
+            let mut s = VirtualSign::new(Address(a), flip(f));
+            for m in past.get(i).map(|v| &v[..]).unwrap_or(&[]) {
+                let _ = s.process_message(&m.to_message());
+            }
+            s
+        };
         BusPair {
             addrs: signs.iter().map(|s| s.0).collect(),
-            bus: VirtualSignBus::new(signs.iter().map(|(a, f)| VirtualSign::new(Address(*a), flip(*f)))),
-            replicas: signs.iter().map(|(a, f)| VirtualSign::new(Address(*a), flip(*f))).collect(),
+            bus: VirtualSignBus::new(signs.iter().enumerate().map(|(i, (a, f))| make(i, *a, *f)).collect::<Vec<_>>()),
+            replicas: signs.iter().enumerate().map(|(i, (a, f))| make(i, *a, *f)).collect(),
         }
     }
 
@@ -164,14 +180,40 @@ impl BusPair {
 }
 
 pub fn check_bus(c: &BusCase, st: &mut Stats) -> Result<(), String> {
+    let _announced = if c.deep || c.ops.iter().any(|o| matches!(o, HOp::Repeat { n, .. } if *n >= 100)) {
+        Some(crate::engine::inflight("C14", "bus-history", || serde_json::to_value(c).unwrap_or_default()))
+    } else {
+        None
+    };
     let mut seen = HashSet::new();
     let signs: Vec<(u16, bool)> = c.signs.iter().filter(|(a, _)| seen.insert(*a)).cloned().collect();
     if signs.is_empty() {
         return Ok(());
     }
-    let mut pair = BusPair::new(&signs);
     // models only size the pixel-transfer macros
     let mut models: Vec<SignModel> = signs.iter().map(|(a, f)| SignModel::new(*a, *f)).collect();
+    let mut past_msgs: Vec<Vec<M>> = vec![];
+    for (i, md) in models.iter_mut().enumerate() {
+        let mut msgs = vec![];
+        for op in c.past.get(i).map(|v| &v[..]).unwrap_or(&[]) {
+            // a sign's own past is addressed to itself
+            let op = match op {
+                HOp::Config { block, fault, .. } => HOp::Config { addr: md.addr, block: block.clone(), fault: *fault },
+                HOp::Pixels { pages, seed, fault, complete, .. } => HOp::Pixels { addr: md.addr, pages: *pages, seed: *seed, fault: *fault, complete: *complete },
+                HOp::Flip { steps, .. } => HOp::Flip { addr: md.addr, steps: *steps },
+                other => other.clone(),
+            };
+            for m in expand(&op, md.w, md.h) {
+                let _ = md.step(&m);
+                msgs.push(m);
+            }
+        }
+        past_msgs.push(msgs);
+    }
+    if past_msgs.iter().any(|p| !p.is_empty()) {
+        st.class("signs-with-a-past-before-the-bus-was-built");
+    }
+    let mut pair = BusPair::with_past(&signs, &past_msgs);
     let mut two_receiving = false;
     let mut absent = false;
     let mut k = 0usize;
@@ -283,9 +325,18 @@ fn bus_case_strategy(max_ops: usize) -> impl Strategy<Value = BusCase> {
                     .prop_map(|(addr, pages, seed, fault, complete)| HOp::Pixels { addr, pages, seed, fault, complete }),
                 1 => (a.clone(), 1u8..8).prop_map(|(addr, steps)| HOp::Flip { addr, steps }),
             ];
-            (Just(addrs), proptest::collection::vec(any::<bool>(), n), proptest::collection::vec(op, 1..max_ops))
+            // what a sign went through before the bus was built: nothing (mostly), a configuration, a configuration and an
+            // abandoned / complete pixel transfer, an abandoned configuration
+            let past = prop_oneof![
+                6 => Just(vec![]),
+                1 => bus_block_strategy().prop_map(|block| vec![HOp::Config { addr: 0, block, fault: Fault::None }]),
+                1 => (bus_block_strategy(), any::<u64>()).prop_map(|(block, seed)| vec![HOp::Config { addr: 0, block, fault: Fault::None }, HOp::Pixels { addr: 0, pages: 1, seed, fault: Fault::NoCount, complete: false }]),
+                1 => (bus_block_strategy(), any::<u64>(), any::<bool>()).prop_map(|(block, seed, complete)| vec![HOp::Config { addr: 0, block, fault: Fault::None }, HOp::Pixels { addr: 0, pages: 2, seed, fault: Fault::None, complete }]),
+                1 => bus_block_strategy().prop_map(|block| vec![HOp::Config { addr: 0, block, fault: Fault::NoCount }]),
+            ];
+            (Just(addrs), proptest::collection::vec(any::<bool>(), n), proptest::collection::vec(op, 1..max_ops), proptest::collection::vec(past, n))
         })
-        .prop_map(|(addrs, flips, ops)| BusCase { signs: addrs.into_iter().zip(flips).collect(), ops, deep: false })
+        .prop_map(|(addrs, flips, ops, past)| BusCase { signs: addrs.into_iter().zip(flips).collect(), ops, deep: false, past })
 }
 
 // depth-bounded BFS over a two-sign bus ---------------------------------------------------------
@@ -334,7 +385,7 @@ fn bfs_two_signs(ctx: &Ctx, depth: u32, max_states: usize) {
                 if let Err(e) = pair.step(m, &messages[oi]) {
                     let mut ops: Vec<HOp> = node.history.iter().map(|&i| HOp::Msg(alphabet[i as usize].clone())).collect();
                     ops.push(HOp::Msg(m.clone()));
-                    let case = BusCase { signs: signs.clone(), ops, deep: false };
+                    let case = BusCase { signs: signs.clone(), ops, deep: false, past: vec![] };
                     ctx.fail("bfs-two-signs", serde_json::to_value(&case).unwrap(), e);
                     return;
                 }
@@ -410,7 +461,7 @@ pub fn run(ctx: &Ctx) {
                     HOp::Msg(M::Req(3, crate::oracle::vsign::O_FINISH_RESET)),
                     HOp::Msg(M::Hello(3)),
                 ]);
-                loaded.push(BusCase { signs, ops, deep: true });
+                loaded.push(BusCase { signs, ops, deep: true, past: vec![] });
             }
         }
     }
@@ -422,11 +473,11 @@ pub fn run(ctx: &Ctx) {
     });
     ctx.part_done("neighbour-with-a-large-buffer", true, json!({"cases": loaded.len(), "what": "sign 3 buffers 4090 / 4100 / 8200 chunks (mid-transfer, parked by start-reset, or counted), then sign 6 is configured, loaded and flipped"}));
 
-    run_generated(ctx, "bus-history", ctx.tier.pick(30_000, 1_000_000), || bus_case_strategy(60), |c, st| check_bus(c, st));
+    run_generated(ctx, "bus-history", ctx.tier.pick(150_000, 2_000_000), || bus_case_strategy(60), |c, st| check_bus(c, st));
     crate::engine::with_logging(|| {
         run_generated(ctx, "bus-history+logging", ctx.tier.pick(6_000, 200_000), || bus_case_strategy(60), |c, st| check_bus(c, st));
     });
-    run_generated(ctx, "bus-history-long", ctx.tier.pick(2_000, 60_000), || bus_case_strategy(300), |c, st| check_bus(c, st));
+    run_generated(ctx, "bus-history-long", ctx.tier.pick(10_000, 120_000), || bus_case_strategy(300), |c, st| check_bus(c, st));
 }
 
 pub fn replay(_part: &str, case: &Value) -> Result<(), String> {
